@@ -1324,6 +1324,8 @@ impl VM {
             },
             (P(Float(f)), Value::P(Float(ff))) => P(Float(f + ff)),
             (P(Str(s)), Value::P(Str(ss))) => {
+                #[cfg(ucg_verif)]
+                crate::verif::tick_n("vm::add", ((s.len() + ss.len()) / 64) as u64);
                 let mut ns = String::new();
                 ns.push_str(s);
                 ns.push_str(ss);
@@ -1334,6 +1336,8 @@ impl VM {
                 C(List(right_list, right_pos_list)),
             ) => {
                 let cap = left_list.len() + right_list.len();
+                #[cfg(ucg_verif)]
+                crate::verif::tick_n("vm::add", (cap / 8) as u64);
                 let mut new_list = Vec::with_capacity(cap);
                 let mut new_pos_list = Vec::with_capacity(cap);
                 let mut counter = 0;
